@@ -215,8 +215,8 @@ func ruleSignedRem(r *Run, pkgs []string, floor int) {
 				if !isAxis || kind == "bs" {
 					continue
 				}
-				if bo.Op == token.QUO {
-					// only the decomposition coordinate / block size
+				if bo.Op == token.QUO && kind != "bound" {
+					// only the decomposition coordinate / block size (a voxel bound is only ever divided by a block size)
 					if dk, _, isD := axisOf(stripConv(bo.Y)); !isD || dk != "bs" {
 						continue
 					}
